@@ -67,6 +67,70 @@ def changed_formula(before, after):
     return z3.Or(*diffs) if diffs else None
 
 
+SHADOW_FN = '''
+def shadow_layout(kind, sh, layout, salt):
+    """Concrete counterpart of make_layout: same view structure, distinct DEscending contents (an in-place sort,
+    reversal or accumulation changes them)."""
+    import numpy as np
+    sh = tuple(sh)
+    def fill(shape):
+        n = int(np.prod(shape)) if shape else 1
+        if kind == "bool":
+            return ((np.arange(n) + salt) % 3 == 0).reshape(shape)
+        if kind == "coord":
+            return np.zeros(shape, dtype=np.int64)
+        return ((n - np.arange(n, dtype=np.int64)) * 3 + salt).reshape(shape)
+    tag = layout.split(":")[0]
+    if tag == "T":
+        base = fill(sh[::-1]); return base.T, base
+    if tag == "sliced":
+        base = fill(sh[:-1] + (2 * sh[-1],)); return base[..., ::2], base
+    if tag == "broadcast":
+        d = int(layout.split(":")[1])
+        base = fill(sh[:d] + (1,) + sh[d + 1:]); return np.broadcast_to(base, sh), base
+    if tag == "readonly":
+        base = fill(sh); base.flags.writeable = False; return base, base
+    base = fill(sh); return base, base
+def shadow_run(spec):
+    import numpy as np, einx
+    def tup(v): return tuple(tup(x) for x in v) if isinstance(v, list) else v
+    arrs, bases = [], []
+    for i, (k, sh, lay) in enumerate(zip(spec["kinds"], spec["shapes"], spec["layouts"])):
+        a, b = shadow_layout(k, sh, lay, i)
+        arrs.append(a); bases.append(b)
+    snap = [(b.copy(), a.shape, a.strides, bool(a.flags.writeable), str(a.dtype)) for a, b in zip(arrs, bases)]
+    kw = {k: tup(v) for k, v in spec["kwargs"].items()}
+    try:
+        getattr(einx, spec["op"])(spec["desc"], *arrs, **kw)
+        outcome = "ok"
+    except Exception as e:
+        outcome = "raised " + type(e).__name__
+    changed = []
+    for i, (a, b, (b0, shp, st, wr, dt)) in enumerate(zip(arrs, bases, snap)):
+        if i in spec["allowed"]:
+            continue
+        if not np.array_equal(b, b0) or (a.shape, a.strides, bool(a.flags.writeable), str(a.dtype)) != (shp, st, wr, dt):
+            changed.append({"argument": i, "layout": spec["layouts"][i], "before": b0.tolist(), "after": b.tolist()})
+    return outcome, changed
+'''
+exec(SHADOW_FN)
+
+
+def shadow_spec(case, tags, mode):
+    return {"op": case["op"], "desc": case["desc"], "kinds": list(case["kinds"]), "shapes": [list(shape(expand(e))) for e in case["ins"]], "layouts": list(tags), "kwargs": runner.jsonable(dict(case["kwargs"], **case["opts"], **({"graph": True} if mode == "graph" else {}))), "allowed": [0] if case["family"] == "update" and mode != "graph" else []}
+
+
+def write_shadow_replay(spec):
+    import hashlib, json, os
+
+    text = json.dumps(spec)
+    os.makedirs(os.path.join(runner.REPLAY_DIR, PROP), exist_ok=True)
+    path = os.path.join(runner.REPLAY_DIR, PROP, "layout_" + hashlib.sha1(text.encode()).hexdigest()[:12] + ".py")
+    with open(path, "w") as f:
+        f.write("#!/venv/bin/python\n\"\"\"Replay (C09): the call on plain numpy arrays in the given memory layouts; every protected argument (and the buffer it views) must be unchanged afterwards.\"\"\"\nimport json, sys\nsys.path.insert(0, '/repo')\n" + SHADOW_FN + "SPEC = json.loads(r'''" + text + "''')\noutcome, changed = shadow_run(SPEC)\nprint('call: einx.%s(%r) layouts=%r ->' % (SPEC['op'], SPEC['desc'], SPEC['layouts']), outcome)\nfor c in changed:\n    print('  argument %d (%s): before %r after %r' % (c['argument'], c['layout'], c['before'], c['after']))\nif changed:\n    print('REPRODUCED: einx modified an argument it must not modify'); sys.exit(1)\nprint('NOT-REPRODUCED'); sys.exit(0)\n")
+    return path
+
+
 def container_meta(v):
     """Identity-level facts of an object passed as a size or option: type, and for arrays shape/dtype/flags."""
     if isinstance(v, np.ndarray):
@@ -162,9 +226,26 @@ def work(item):
     except Exception as e:  # noqa: BLE001
         res["call"] = harness.classify_exception(e)
         res["error"] = f"{type(e).__name__}: {str(e)[:160]}"
-        if res["call"] == "unmodelled":
-            res["status"] = "unmodelled"
+    # concrete shadow on the same layouts: validates the symbolic write-set against a real execution, and is the
+    # only observation left when the symbolic run was cut short (a primitive outside the model, or a comparison of
+    # symbolic values inside numpy's own C code, e.g. an in-place ndarray.sort)
+    if mode != "containers":
+        spec = shadow_spec(case, tags, mode)
+        try:
+            sh_outcome, sh_changed = shadow_run(spec)
+        except Exception as e:  # noqa: BLE001
+            sh_outcome, sh_changed = f"shadow failed: {type(e).__name__}", []
+        res["shadow"] = sh_outcome
+        if sh_changed:
+            path = write_shadow_replay(spec)
+            ok, out = replay.run_script(path)
+            res["replay"], res["replay_out"] = path, out[-800:]
+            res["status"] = "violation" if ok else "not-reproduced"
+            res["arg"] = sh_changed[0]["argument"]
             return res
+    if res["call"] == "unmodelled":
+        res["status"] = "unmodelled"
+        return res
     # containers unchanged?
     same_kw = set(kw) == set(kw_snapshot) and all(type(kw[k]) is type(kw_snapshot[k]) and np.array_equal(np.asarray(kw[k]), np.asarray(kw_snapshot[k])) for k in kw)
     same_kw = same_kw and all(container_meta(kw[k]) == kw_meta[k] for k in kw)
